@@ -215,6 +215,66 @@ def thread_scenarios(ctx, rng, factory, edges, rounds):
         sys.setswitchinterval(old)
 
 
+def thread_handoff(ctx, rng, factory, edges, rounds):
+    """iterators that are OPEN in one thread while another thread works on the same graph: (1) a complete query from a second thread while
+    this thread holds a half-consumed iterator, (2) an iterator started here and finished by a second thread, (3) two threads that take
+    turns on each other's open iterators. Every step runs under a time limit: a query that never returns is not an answer."""
+    LIMIT = 8
+    g = gl.build_impl(factory, edges)
+    nodes = gl.nodes_of(edges)
+
+    def in_thread(fn):
+        box = {}
+
+        def work():
+            try:
+                box['v'] = fn()
+            except Exception as e:  # noqa
+                box['v'] = f'raises {type(e).__name__}: {e}'
+        th = threading.Thread(target=work, daemon=True)
+        th.start()
+        th.join(LIMIT)
+        return box.get('v', f'did not return within {LIMIT} s') if not th.is_alive() else f'did not return within {LIMIT} s'
+    for r in range(rounds):
+        # the open iterator has handed out at least one TRAVERSED node (not just the source), so the traversal itself is under way
+        for _ in range(50):
+            a = (rng.choice(['ancestors', 'descendants']), rng.choice(nodes), r % 3 == 0)
+            if len(standalone(g, a)) >= (3 if a[2] else 2):
+                break
+        b = (rng.choice(['ancestors', 'descendants']), rng.choice(nodes), rng.random() < 0.5)
+        want_a, want_b = sorted(standalone(g, a)), sorted(standalone(g, b))
+        ctx.case(['thread-handoff', factory, edges, a, b, r], True, f'thread-handoff.{factory}', sample={'factory': factory, 'open': a, 'other': b} if r == 0 else None)
+        problem = None
+        # (1) this thread holds an open iterator; another thread asks a complete question
+        it = open_iter(g, a)
+        first = [next(it).value] + ([next(it).value] if a[2] else [])
+        got_b = in_thread(lambda: sorted(t.value for t in open_iter(g, b)))
+        if got_b != want_b:
+            problem = f'(1) with an iterator of {a} open in another thread, {b} answers {got_b}; alone it answers {want_b}'
+        # (2) ... and the open iterator is finished by another thread
+        if problem is None:
+            rest = in_thread(lambda: [t.value for t in it])
+            if not isinstance(rest, list) or sorted(first + rest) != want_a:
+                problem = f'(2) an iterator of {a} started in one thread and finished in another gives {first} + {rest}; alone it gives {want_a}'
+        # (3) two threads, each opens one iterator, then each finishes the OTHER one
+        if problem is None:
+            its = {}
+            r1 = in_thread(lambda: its.__setitem__('a', (lambda i: (i, [next(i).value] + ([next(i).value] if a[2] else [])))(open_iter(g, a))))
+            r2 = in_thread(lambda: its.__setitem__('b', open_iter(g, b)))
+            if isinstance(r1, str) or isinstance(r2, str):
+                problem = f'(3) opening iterators in two threads: {r1} / {r2}'
+            else:
+                ia, fa = its['a']
+                rb = in_thread(lambda: sorted(t.value for t in its['b']))
+                ra = in_thread(lambda: [t.value for t in ia])
+                if rb != want_b or not isinstance(ra, list) or sorted(fa + ra) != want_a:
+                    problem = f'(3) iterators of {a} / {b} opened in two threads and finished by other threads give {fa} + {ra} / {rb}; alone {want_a} / {want_b}'
+        if problem:
+            ctx.violation(f'{factory}:thread-handoff', {'case': {'kind': 'thread-handoff', 'factory': factory, 'edges': edges, 'open': list(a), 'other': list(b)},
+                                                        'impl': problem, 'theorem': 'Hpv.Props.C12 (partial: threads)'})
+            return
+
+
 def fresh_graph_threads(ctx, rng, factory, rounds, n_nodes):
     """every round builds a FRESH graph (nothing has queried it yet) and releases 4 threads on it at once; each asks about nodes
     that sit late in the node array, so anything the graph computes lazily on first use is computed under contention"""
@@ -611,6 +671,12 @@ def load_orders(ctx, rng, thorough):
         for k, (neg, freq) in enumerate([('', '12%'), ('', 'HP:0040283'), ('NOT', '0/5'), ('', '33.3%'), ('NOT', 'HP:0040281')]):
             lines.append('\t'.join(['OMIM:999001', 'CONFIG SENSITIVE', neg, f'HP:000{k + 1:04d}', 'PMID:1', 'PCS', '', freq, '', '', 'P',
                                     'HPO:probinson[2020-01-01]']))
+        # a feature with several lines of which the FIRST has no frequency (present and negated), next to lines without a frequency that
+        # stand alone: whatever a load does with the ratio of a frequency-less line, the next load starts from scratch
+        for pid, neg, freqs in (('HP:0000100', '', ['', '3/4']), ('HP:0000101', '', ['']), ('HP:0000102', 'NOT', ['', '2/8']), ('HP:0000103', 'NOT', ['']),
+                                ('HP:0000104', '', ['', '', '1/3'])):
+            for fr in freqs:
+                lines.append('\t'.join(['OMIM:999001', 'CONFIG SENSITIVE', neg, pid, 'PMID:1', 'PCS', '', fr, '', '', 'P', 'HPO:probinson[2020-01-01]']))
         p = os.path.join(world, 'a.hpoa')
         with open(p, 'w', encoding='utf-8') as fh:
             fh.write(''.join(l + '\n' for l in head + c08.consistent_names(lines)))
@@ -665,20 +731,23 @@ def load_orders(ctx, rng, thorough):
             same = os.path.join(world, 'same-path.' + ('hpoa' if kind == 'hpoa' else 'json'))
             other = os.path.join(world, 'other-path.' + ('hpoa' if kind == 'hpoa' else 'json'))
             ctx.case(['same-path', kind], True, 'same path, new content, old time stamps')
-            try:
-                with open(same, 'wb') as fh:
-                    fh.write(da + b' ' * (size - len(da)) if kind != 'hpoa' else da)
-                st = os.stat(same)
-                first = json.loads(json.dumps(load_and_dump([kind, same])))
-                with open(same, 'wb') as fh:
-                    fh.write(db + b' ' * (size - len(db)) if kind != 'hpoa' else db)
-                os.utime(same, ns=(st.st_atime_ns, st.st_mtime_ns))
-                with open(other, 'wb') as fh:
-                    fh.write(db)
-                second = json.loads(json.dumps(load_and_dump([kind, same])))
-                want = json.loads(json.dumps(load_and_dump([kind, other])))
-            except Exception as e:  # noqa
-                second, want = f'raises {type(e).__name__}: {e}', None
+            def outcome(job):
+                # a document the loader rejects is rejected wherever it lies: the OUTCOME (dump or exception type) is what is compared
+                try:
+                    return json.loads(json.dumps(load_and_dump(job)))
+                except Exception as e:  # noqa
+                    return f'raises {type(e).__name__}'
+            with open(same, 'wb') as fh:
+                fh.write(da + b' ' * (size - len(da)) if kind != 'hpoa' else da)
+            st = os.stat(same)
+            outcome([kind, same])
+            with open(same, 'wb') as fh:
+                fh.write(db + b' ' * (size - len(db)) if kind != 'hpoa' else db)
+            os.utime(same, ns=(st.st_atime_ns, st.st_mtime_ns))
+            with open(other, 'wb') as fh:
+                fh.write(db)
+            second = outcome([kind, same])
+            want = outcome([kind, other])
             if second != want:
                 ctx.violation('same-path', {'case': {'kind': 'same-path', 'loader': kind, 'first_document': da.decode('utf-8')[:3000], 'second_document': db.decode('utf-8')[:3000]},
                                             'impl_second_load_of_the_path': str(second)[:1200], 'impl_same_bytes_at_another_path': str(want)[:1200],
@@ -763,6 +832,8 @@ def run(ctx):
             graph_histories(ctx, rng, f, edges, 40 if thorough else 12)
     for f in gl.FACTORIES:
         thread_scenarios(ctx, rng, f, fixed[0], 200 if thorough else 60)
+    for f in gl.FACTORIES:
+        thread_handoff(ctx, rng, f, fixed[0], 40 if thorough else 10)
     for f in gl.FACTORIES:
         fresh_graph_threads(ctx, rng, f, 60 if thorough else 15, 300 if f == 'indexed' else 60)
     for f in gl.FACTORIES:
